@@ -166,6 +166,15 @@ let handle = function
             L [L (List.map (fun (b, n) -> L [A (if b then "1" else "0"); a_z n]) vs);
                L (List.map (fun i -> A (string_of_int (int_of_nat i))) idx)]) gs);
        L (List.map sexp_of_expr conc)]
+  | L [A "store_run"; L ops] ->
+    (* solver 0 starts blank; returns the final store *)
+    let op_of = function
+      | L [A "add"; A i; L cs] -> SAdd (nat_of_int (int_of_string i), List.map expr_of cs)
+      | L [A "branch"; A i; A j] -> SBranch (nat_of_int (int_of_string i), nat_of_int (int_of_string j))
+      | L [A "query"; A i] -> SQuery (nat_of_int (int_of_string i))
+      | _ -> failwith "sop" in
+    let m = List.fold_left (fun m o -> sstep m (op_of o)) [(O, blank)] ops in
+    L (List.map (fun (i, s) -> L [A (string_of_int (int_of_nat i)); fe_sexp s]) m)
   | L [A "fe_split_fe"; st] -> L (List.map fe_sexp (split_fe (fe_of st)))
   | L [A "meta"; e] ->
     let x = expr_of e in
